@@ -1,12 +1,13 @@
 """C27 Provider sessions enforce CU limits and replay protection under concurrency. (DESIGN.md section 4, C27)
 
-M: ProviderSessions.tla exhaustively (relay / UpdateSessionCU / UpdateEpoch processes whose labels are the
-   yield points of the code) - invariants OnePerSession, OneObject, Accounting(Strong), MissingBounded,
+M: ProviderSessions.tla exhaustively (relay incl. the registration path IsActiveProject -> registerNewConsumer ->
+   GetSession / UpdateSessionCU / UpdateEpoch processes whose labels are the yield points of the code) - invariants
+   OnePerSession, OneObject, OneProjectEntry, Accounting(Strong), MissingBounded,
    QuietUnlocked, action properties AcceptWithinMax, RelayNumIncreases, AcceptedRelayNum, deadlock freedom.
 G: schedules (scenario + sequence of process names) from TLC: -simulate (seeded) in both tiers, plus the
    exhaustive enumeration of every schedule of the small scenarios ScnEnum in the thorough tier.
 R: harness/cmd/provsessions replays every schedule with a gate scheduler on the real ProviderSessionManager
-   (hooks/lavasession_provider.patch) and logs the projected state after every step.
+   (hooks/lavasession_provider.patch, lavasession_provider_register.patch) and logs the projected state after every step.
 V: TLC validates the recorded trace: Obs mode evaluates the C27 invariants on the real states (violation =
    statement about the code, re-executed before it is reported); Conf mode requires every real step to be
    the spec's step (rejection = the model no longer predicts the code: exit 2, never a violation).
